@@ -222,11 +222,14 @@ class FS:
 
     # ---- shutil ----
     @untraced
-    def rmtree(self, p):
+    def rmtree(self, p, ignore_errors=False, onerror=None):
         self._tick()
         r = self._real(p, follow_last=False)
         n = self.nodes.get(r)
         if not n or n[0] != "d":
+            # like shutil.rmtree: a symbolic link (or a file) is refused; with ignore_errors the refusal is silent
+            if ignore_errors:
+                return
             raise NotADirectoryError(p)
         pref = r.rstrip("/") + "/"
         for k in [k for k in self.nodes if k == r or k.startswith(pref)]:
@@ -276,6 +279,10 @@ class OsPath:
     dirname = staticmethod(posixpath.dirname)
     splitext = staticmethod(posixpath.splitext)
     normpath = staticmethod(posixpath.normpath)
+    isabs = staticmethod(posixpath.isabs)
+    split = staticmethod(posixpath.split)
+    commonprefix = staticmethod(posixpath.commonprefix)
+    sep = "/"
 
     def __getattr__(self, name):
         return getattr(self._fs, name)
